@@ -267,6 +267,7 @@ func replayDagGraph(c *Ctx, run *ev.Run, g *dagGraph, nAccepted, nRejected, nSta
 		si := g.states[key]
 		path := g.path(key)
 		// (a) refused requests at this state
+		var sPoison *dagm.Sess
 		if len(si.rej) > 0 {
 			s := w.sess()
 			if msg, err := buildState(s, path); err != nil {
@@ -316,6 +317,32 @@ func replayDagGraph(c *Ctx, run *ev.Run, g *dagGraph, nAccepted, nRejected, nSta
 					}
 				}
 				atomic.AddInt64(nRejected, 1)
+			}
+			sPoison = s
+		}
+		// (a') the refused requests must not have poisoned later ones: in the session that has just
+		// seen all refused requests of this state, an accepted request of the state (preferably one
+		// with a caller-assigned UUID, which a refusal must not have burnt) still has to work
+		if len(si.rej) > 0 && len(si.out) > 0 && sPoison != nil {
+			pick := si.out[0]
+			for _, ei := range si.out {
+				if g.edges[ei].L.UUID != "" && g.edges[ei].L.UUID != "auto" || g.edges[ei].L.Tag != "" {
+					pick = ei
+					break
+				}
+			}
+			e := g.edges[pick]
+			ok, status, err := sPoison.Apply(e.L)
+			must(err, "apply after refusals")
+			if !ok {
+				report(c07Divergence{Kind: "accepted-request-refused-after-refused-requests", Path: path, Op: e.L,
+					Diffs: []string{fmt.Sprintf("status %d: a request the specification accepts in this state is refused once the state's refused requests have been sent", status)}, Script: sPoison.Script})
+			} else {
+				d, err := compareState(sPoison, e.T, true)
+				must(err, "project")
+				if len(d) > 0 {
+					report(c07Divergence{Kind: "state-mismatch-after-refused-then-accepted-request", Path: path, Op: e.L, Expected: e.T, Diffs: d, Script: sPoison.Script})
+				}
 			}
 		}
 		// (b) accepted edges
